@@ -56,3 +56,6 @@ package cache
 //@   cs-pure mapUnchanged(c.Map.data)
 //@   atomic [removes-only-expired] mapUnchanged(c.Map.data) || !old(present(c.Map.data, key)) || (old(c.Map.data[key]) == value && expiredAt(old(atomicLoad(c.Map.data[key].ValidUntil)), now))
 //@   atomic [touches-only-key] mapUnchanged(c.Map.data) || mapIsDelete(c.Map.data, key)
+//@   atomic [removes-expired] old(present(c.Map.data, key)) && old(c.Map.data[key]) == value && expiredAt(old(atomicLoad(c.Map.data[key].ValidUntil)), now) ==> mapIsDelete(c.Map.data, key)
+//@   ensures [sweeps-on] cont
+//@   ensures [expiry-callback-iff-expired] called(onExpire) <==> expiredAt(old(atomicLoad(value.ValidUntil)), now)
